@@ -99,3 +99,76 @@ Definition spec_strip (path rname : bytes) : option (list bytes) :=
               | None => None
               end
   end.
+
+(* ================= definitions used by the statements of Props/C06.v ================= *)
+
+(* ---- reachable nodes and candidates ---- *)
+Inductive reach : node -> list ptok -> node -> Prop :=
+| R_nil : forall n, reach n [] n
+| R_lit : forall n t c p m, lit_get t (node_lits n) = Some c -> reach c p m -> reach n (PLit t :: p) m
+| R_par : forall n c p m, node_param n = Some c -> reach c p m -> reach n (PAnon :: p) m
+| R_wild : forall n c p m, node_wild n = Some c -> reach c p m -> reach n (PFull :: p) m.
+
+
+(* a pattern ending in the full wildcard *)
+Definition ends_full (p : list ptok) : Prop := exists p0, p = p0 ++ [PFull].
+
+(* every full-wildcard node of the trie has a handler (what ValidateListeners + registration ensure) *)
+Definition wild_handled (root : node) : Prop :=
+  forall p m, reach root p m -> ends_full p -> node_hs m <> None.
+
+
+(* AddHandler's group: Some [] for Parallel, the parsed template otherwise; None = parseGroup panics *)
+Definition pgroup (par : bool) (grp pat : bytes) : option group :=
+  if par then Some (Some []) else parse_group grp pat.
+
+
+(* ---- the flat op list ---- *)
+Inductive fop :=
+| FHandle (pat : bytes) (hid : N) (grp : bytes) (par : bool)
+| FListen (pat : bytes) (l : lid).
+Definition frun_op (root : node) (o : fop) : outcome node :=
+  match o with
+  | FHandle pat hid grp par => add root pat hid grp par
+  | FListen pat l => add_listener root pat l
+  end.
+Fixpoint frun (root : node) (ops : list fop) : node :=
+  match ops with
+  | [] => root
+  | o :: r => frun (out_state (frun_op root o)) r
+  end.
+(* the accepted Handle calls: (skeleton of the pattern, handler id) *)
+Fixpoint fregs (root : node) (ops : list fop) : list (list ptok * N) :=
+  match ops with
+  | [] => []
+  | o :: r =>
+    match o with
+    | FHandle pat hid _ _ => if is_ok (frun_op root o) then [(skel (ptoks pat), hid)] else []
+    | FListen _ _ => []
+    end ++ fregs (out_state (frun_op root o)) r
+  end.
+Definition to_op (k : nat) (o : fop) : op :=
+  match o with
+  | FHandle pat hid grp par => OHandle k pat hid grp par
+  | FListen pat l => OListen k pat l
+  end.
+
+
+(* the state after NewMux(path) followed by the flat ops on that mux *)
+Definition flat_state (path : bytes) (ops : list fop) : state :=
+  fst (replay [] (ONew path :: map (to_op 0) ops)).
+
+
+(* the accepted Handle calls with all their arguments *)
+Record entry := Ent { e_pat : bytes; e_hid : N; e_grp : bytes; e_par : bool }.
+Definition e_skel (e : entry) : list ptok := skel (ptoks (e_pat e)).
+
+Fixpoint fent (root : node) (ops : list fop) : list entry :=
+  match ops with
+  | [] => []
+  | o :: r =>
+    match o with
+    | FHandle pat hid grp par => if is_ok (frun_op root o) then [Ent pat hid grp par] else []
+    | FListen _ _ => []
+    end ++ fent (out_state (frun_op root o)) r
+  end.
